@@ -1,6 +1,7 @@
 import JsonVerif.Lemmas.ErrAt
 import JsonVerif.Lemmas.Steps
 import JsonVerif.Model.Entry
+import JsonVerif.Lemmas.Hub
 /-!
 # C07 — Parse errors point at the first offending character
 
@@ -68,6 +69,18 @@ theorem C07_surrogate_spans (o : ParseOptions) (cs : List Char) (bad : Bool) (s 
          parseChars o cs bad = .error (.invalidCodePoint s e cp)) :
     Bdry cs 0 s ∧ Bdry cs 0 e ∧ s ≤ e := by
   rcases h with h | h | h <;> exact C07_boundary_partial o cs bad _ h
+
+/-- An error is never reported for a valid document (completeness of the strict parser, read
+    backwards): whenever strict parsing of a well-formed character stream fails — with whatever
+    error — the text is not an RFC 8259 JSON-text. Together with the boundary clause: the reported
+    offset is a character boundary of a text that really is invalid. -/
+theorem C07_error_only_if_invalid (cs : List Char) (e : PErr)
+    (h : parseStr ⟨false, false⟩ cs = .error e) : ¬ ∃ v, GDoc cs v := by
+  rintro ⟨v, hg⟩
+  obtain ⟨cm, hc⟩ := parse_complete_strict hg
+  unfold parseStr at h
+  rw [hc] at h
+  cases h
 
 /-- Full statement of the viable-prefix clause (not yet proved; tested against an independent
     LL(1) recogniser on every rejected input of the streams). `Viable pre` = some continuation of
